@@ -23,6 +23,7 @@ fixed("F12", "C18", "a5ae828", "decompose_orquestra_circuit dropped n_qubits (id
 fixed("F13", "C01", "bed759e", "Circuit.to_unitary raised for circuits mixing symbolic and numeric gates under numpy 2 (also C06)")
 fixed("F14", "C05", "97d3e80", "Python float parameters reloaded 1 ulp off for ~2% of doubles")
 fixed("F15", "C11", "e339167", "PauliSum(str(s)) raised for real coefficients >= 1e16: the parser split the printed text on the + of an exponent (1e+16)")
+fixed("F16", "C12", "3ce69e4", "history init(symbolic) -> bind(all symbols) -> rejected assignment: the bound vector is an (N,1) array, the saved old value was a view, so the rejected value stayed in the object")
 open_("K1", "C18", "probe_K1", "controlled U3 (any number of controls) with (phi+lambda) mod 4pi != 0",
       "decomposed circuit == original * (phase exp(-i(phi+lambda)/2) on the all-controls-1 block), up to global phase",
       {"gate": "U3(0.3,0.5,0.9).controlled(1)(0,1)"},
